@@ -360,6 +360,44 @@ end shutdown
 section waiting
 open Frappy.Spec.C15
 
+/-- statements none of which lets an exception out: all of them run -/
+theorem blocks_all_ok : ∀ (l : List Block), (∀ b ∈ l, b.2 = none) → blocks l = (l.flatMap (·.1), none) := by
+  intro l
+  induction l with
+  | nil => intro _; rfl
+  | cons b rest ih =>
+    intro h
+    obtain ⟨evs, exc⟩ := b
+    have hb : exc = none := h (evs, exc) (by simp)
+    subst hb
+    have := ih (fun b hb => h b (List.mem_cons_of_mem _ hb))
+    simp [blocks, this]
+
+/-- the loop body of `writeInitParams` attempts the write and lets nothing out, whatever `write_<p>` raises -/
+theorem writeOne_eq (c : ModCfg) (p : String) : writeOne c p = ([Ev.write c.name p], none) := by
+  unfold writeOne
+  split
+  · rfl
+  · split <;> rfl
+
+theorem writeInitParams_eq (c : ModCfg) : writeInitParams c = (c.writes.map (Ev.write c.name), none) := by
+  unfold writeInitParams
+  rw [blocks_all_ok]
+  · simp only [List.flatMap_map, writeOne_eq]
+    induction c.writes with
+    | nil => rfl
+    | cons p ps ih =>
+      have ih' := (Prod.mk.injEq _ _ _ _ ▸ ih).1
+      simp [List.flatMap_cons, ih']
+  · intro b hb
+    obtain ⟨p, _, rfl⟩ := List.mem_map.mp hb
+    rw [writeOne_eq]
+
+theorem prologue_eq (st : St) (t : Name) :
+    prologue st t = (members st t).flatMap (fun m => (cfgOf st m).writes.map (Ev.write m)) ++
+      ((members st t).filter (fun m => (cfgOf st m).poll)).map Ev.firstpoll ++ [Ev.rounddone t] := by
+  simp [prologue, writeInitParams_eq]
+
 /-- every started poll thread is still pending or has reported its first round; prologues contain no `thread` event -/
 structure WInv (w : Wait) : Prop where
   pend : ∀ t, Ev.thread t ∈ w.log → t ∈ w.pending ∨ Ev.rounddone t ∈ w.log
@@ -505,7 +543,7 @@ theorem winv_init (st : St) : WInv (waitInit st) := by
   intro p hp e he
   simp only [waitInit, List.mem_map] at hp
   obtain ⟨t, _, rfl⟩ := hp
-  simp only [prologue, List.mem_append, List.mem_flatMap, List.mem_map, List.mem_singleton] at he
+  simp only [prologue_eq, List.mem_append, List.mem_flatMap, List.mem_map, List.mem_singleton] at he
   rcases he with (⟨m, _, p, _, rfl⟩ | ⟨m, _, rfl⟩) | rfl <;> rfl
 
 end waiting
